@@ -1037,7 +1037,7 @@ def plan(tier):
     specs += [{'kind': 'arity', 'shard': 100 + i, 'per_n': 10 if tier == 'quick' else 60} for i in range(8)]
     specs += [{'kind': 'soup', 'shard': 200 + i, 'rounds': 25 if tier == 'quick' else 400} for i in range(4)]
     specs += [{'kind': 'wrapped', 'shard': 300 + i, 'part': i, 'parts': 6} for i in range(6)]
-    specs += [{'kind': 'ref-to-bad', 'shard': 400}]
+    specs += [{'kind': 'ref-to-bad', 'shard': 400}, {'kind': 'long', 'shard': 401}]
     return specs
 
 
@@ -1057,6 +1057,16 @@ def run_shard(spec, rec):
             if rec.out_of_time():
                 break
             for f in run_texts(items[i:i + 40], rec):
+                rec.fail(**f)
+    elif spec['kind'] == 'long':
+        # very long but well-formed texts: translated whole or rejected with the parser exception, whatever the interpreter stack allows
+        for n in (60, 200, 330, 400, 600, 1000):
+            if rec.out_of_time():
+                break
+            items = [{'t': '=1' + '+1' * n, 'k': 'long'}, {'t': '=SUM(' + ','.join(['2'] * n) + ')', 'k': 'long'}, {'t': '=' + '-' * n + '1', 'k': 'long'},
+                     {'t': '="a"' + '&"b"' * n, 'k': 'long'}, {'t': '=' + '(' * n + '1' + ')' * n, 'k': 'long'}, {'t': '=1' + '+1' * n + ')', 'k': 'long'},
+                     {'t': '=IF(1,' * min(n, 300) + '1' + ',2)' * min(n, 300), 'k': 'long'}]
+            for f in run_texts([it for it in items if len(it['t']) < 30000], rec):
                 rec.fail(**f)
     elif spec['kind'] == 'ref-to-bad':
         for f in run_ref_to_bad(rec):
